@@ -254,7 +254,12 @@ impl<M: GuestAddressSpace> VringState<M> {
         }
 
         if let Some(kick) = &self.kick {
-            kick.consume()?;
+            match kick.consume() {
+                // A stale wake-up (e.g. the kick descriptor was replaced after the worker had
+                // been woken) finds nothing to read on a non-blocking descriptor: not an error.
+                Err(e) if e.kind() == io::ErrorKind::WouldBlock => {}
+                res => res?,
+            }
         }
 
         Ok(true)
